@@ -14,6 +14,8 @@ mod sm2api;
 mod c07;
 mod c08;
 mod c11;
+mod c12;
+mod c16;
 mod c13;
 mod c14;
 mod c15;
@@ -37,6 +39,8 @@ fn registry(id: &str) -> Option<(&'static str, RunFn, ReplayFn)> {
         "C07" => ("C07", c07::run as RunFn, c07::replay as ReplayFn),
         "C08" => ("C08", c08::run as RunFn, c08::replay as ReplayFn),
         "C11" => ("C11", c11::run as RunFn, c11::replay as ReplayFn),
+        "C12" => ("C12", c12::run as RunFn, c12::replay as ReplayFn),
+        "C16" => ("C16", c16::run as RunFn, c16::replay as ReplayFn),
         "C13" => ("C13", c13::run as RunFn, c13::replay as ReplayFn),
         "C14" => ("C14", c14::run as RunFn, c14::replay as ReplayFn),
         "C15" => ("C15", c15::run as RunFn, c15::replay as ReplayFn),
